@@ -72,7 +72,11 @@ var sourceKinds = []string{"plain", "section", "bufio", "logged"}
 // what is read (source kind "logged").
 type nullLogger struct{ n int }
 
-func (l *nullLogger) Printf(format string, vals ...interface{}) { l.n++ }
+// (the text is built as a real logger would build it - String methods of the
+// arguments run - and thrown away)
+func (l *nullLogger) Printf(format string, vals ...interface{}) {
+	l.n += len(fmt.Sprintf(format, vals...))
+}
 
 func decodeVia(kind string, file []byte, exp *refsmf.File) (diff string, track int, what string, c engine.Caught) {
 	var got *smf.SMF
